@@ -501,7 +501,7 @@ fn halt_and_interrupts() {
     assert!(c.iff1);
     // prefixed HALT
     let (c, _, i) = run(&[0xDD, 0x76], |_, _| {});
-    assert!(c.halted && c.pc == PC + 1 && i.halt && i.ambiguous == Some("prefixed HALT"));
+    assert!(c.halted && c.pc == PC + 1 && i.halt && i.ambiguous.is_none());
 }
 
 #[test]
